@@ -626,7 +626,7 @@ Proof.
         unfold here. rewrite (m2_pc _ _ _ _ _ _ _ Hk), stmt_at_A. destruct (stmt_at codeB (m_pc k2)) as [sk|]; cbn [bind option_map]; [|eapply unexpected_rel2; exact Hk].
         rewrite stmt_pos_smap.
         pose proof (lookup_rel2 rho off N q2 x _ _ Hx (m2_sc _ _ _ _ _ _ _ Hk)) as L2.
-        destruct (lookup_var (rho x) (m_scopes k1)) as [d1|], (lookup_var x (m_scopes k2)) as [d2|]; simpl in L2; try contradiction; [|eapply rt_err_rel2; exact Hk].
+        destruct (lookup_var (rho x) (m_scopes k1)) as [d1|], (lookup_var x (m_scopes k2)) as [d2|]; simpl in L2; try contradiction; [|reflexivity].
         eapply orel2_bind; [apply assign_path_rel2; eauto; eapply vrel_mono2; eauto|].
         intros q3 j1 j2 Hle3 Hbq3 Hj. apply orel2_ok; [exact Hbq3|]. apply mrel2_next. exact Hj.
   - (* expression statement *)
